@@ -22,6 +22,11 @@ class SV(object):
         return 'SV(%s : %r)' % (self.term, self.ty)
 
 
+def tid(term):
+    """key of a term for per-path side tables (hash-consed ast id; str() of a big term is exponential)"""
+    return 't%d' % z3.simplify(term).get_id()
+
+
 def const_sv(v):
     t = {type(None): Ty.NONE, bool: Ty.BOOL, int: Ty.INT, str: Ty.STR, bytes: Ty.BYTES}[type(v)]
     return SV(lit(v), t, v, True)
@@ -291,7 +296,7 @@ def new_list(st, elems, elty=None, kind=K_LIST):
                 elty = Ty.join(elty, e.ty)
         ty = Ty.TList(elty or Ty.ANY)
     sv = SV(VRef(a), ty)
-    st.notes[('elems', str(VRef(a)))] = list(elems)      # statically known contents (dropped on mutation)
+    st.notes[('elems', tid(VRef(a)))] = list(elems)      # statically known contents (dropped on mutation)
     if all(e.has_py for e in elems):
         sv.py = [e.py for e in elems] if kind == K_LIST else tuple(e.py for e in elems)
         sv.has_py = kind == K_TUPLE     # lists are mutable: concrete view only for tuples
@@ -552,3 +557,22 @@ def only_fresh_stores(arr, base, fresh_ids, depth=0):
     if k == z3.Z3_OP_ITE:
         return only_fresh_stores(arr.arg(1), base, fresh_ids, depth + 1) and only_fresh_stores(arr.arg(2), base, fresh_ids, depth + 1)
     return False
+
+
+def sel_L(st, addr):
+    """L[addr] with stores at *other freshly allocated addresses* peeled off syntactically (two distinct allocation terms of
+    one path denote different addresses); keeps invariants over a list syntactically stable across unrelated allocations"""
+    try:
+        addr = z3.simplify(addr)
+        fresh_ids = st.notes.get('fresh', frozenset()) if hasattr(st, 'notes') else frozenset()
+        arr = st.L
+        if addr.get_id() in fresh_ids:
+            while z3.is_app(arr) and arr.decl().kind() == z3.Z3_OP_STORE:
+                idx = z3.simplify(arr.arg(1))
+                if idx.get_id() in fresh_ids and idx.get_id() != addr.get_id():
+                    arr = arr.arg(0)
+                else:
+                    break
+        return arr[addr]
+    except Exception:
+        return st.L[addr]
